@@ -12,7 +12,8 @@ CLAIMS = {
         "Bounded model checking of the debugger's half of the breakpoint contract: Breakpoint::{enable, disable} decided for every "
         "24-byte text image, every alignment of the breakpoint inside its ptrace word and one arbitrary store by the stepped "
         "instruction (sequence enable; disable; store; enable = step_over_breakpoint around one single step): INT3 at exactly the "
-        "requested byte, saved byte = the byte replaced, restore exact, re-arm keeps working; Tracer::apply_new_status on a "
+        "requested byte, saved byte = the byte replaced, restore exact, re-arm keeps working; lifting a breakpoint restores its own byte only, whatever was stored next to it "
+        "while it was armed (a neighbouring breakpoint in the same ptrace word survives); Tracer::apply_new_status on a "
         "breakpoint trap decided for every rip, si_code in {TRAP_BRKPT, SI_KERNEL} and breakpoint address pair: reports "
         "Breakpoint(pid, rip-1), rewinds pc by exactly one and nothing else, marks the thread stopped, requests a group stop.",
         "Trusted: Kani/CBMC/CaDiCaL; stubs of ptrace read/write/getregs/setregs/getsiginfo onto static models; group_stop_interrupt cut; "
